@@ -944,6 +944,54 @@ func checkC14(c *Ctx, r *Report) {
 					}
 				}
 			}
+			// the same stores made by a small helper (`setRequestBody(r, prepared.Body)`): the helper stores a reader over
+			// one of its parameters into Request.Body / its parameter into URL.Path, and the argument is the prepared value
+			if call, ok := in.(*ssa.Call); ok {
+				if h := call.Call.StaticCallee(); h != nil && h.Blocks != nil && c.inRepo(h) {
+					paramIn := func(v ssa.Value) int {
+						found := -1
+						var walk func(v ssa.Value, d int)
+						walk = func(v ssa.Value, d int) {
+							if v == nil || d == 0 || found >= 0 {
+								return
+							}
+							if p, ok := v.(*ssa.Parameter); ok {
+								for i, q := range h.Params {
+									if q == p {
+										found = i
+									}
+								}
+								return
+							}
+							if x, ok := v.(ssa.Instruction); ok {
+								for _, op := range x.Operands(nil) {
+									if *op != nil {
+										walk(*op, d-1)
+									}
+								}
+							}
+						}
+						walk(v, 6)
+						return found
+					}
+					eachInstr(h, func(x ssa.Instruction) {
+						st, ok := x.(*ssa.Store)
+						if !ok {
+							return
+						}
+						if isField(st.Addr, "net/http", "Request", "Body") {
+							if i := paramIn(st.Val); i >= 0 && i < len(call.Call.Args) && mentionsFieldDeep(call.Call.Args[i], "internal/adapter/translator", "PassthroughRequest", "Body", 6) {
+								body = true
+							}
+						}
+						if isField(st.Addr, "net/url", "URL", "Path") {
+							if i := paramIn(st.Val); i >= 0 && i < len(call.Call.Args) && mentionsField(call.Call.Args[i], "internal/adapter/translator", "PassthroughRequest", "TargetPath", 3) {
+								path = true
+							}
+						}
+					})
+				}
+			}
 		})
 		key := fname(ep) + ":before-dispatch"
 		if body && path && hdr {
